@@ -6,6 +6,13 @@ root = os.path.dirname(here)
 claims = json.load(open(os.path.join(here, "claims.json")))
 props = [json.loads(l) for l in open(os.path.join(root, "properties.jsonl"))]
 baseline = json.load(open("/root/.vp/BASELINE.json"))["cmd"] if os.path.exists("/root/.vp/BASELINE.json") else ""
+import subprocess
+desc = {}
+try:
+    out = subprocess.run([os.path.join(root, "bin", "wvcheck"), "describe"], capture_output=True, text=True, check=True).stdout
+    desc = {d["id"]: d for d in json.loads(out)}
+except Exception as e:  # the binary is built by setup.sh; without it the hand-written claim text is used alone
+    print("describe unavailable:", e)
 checks, na = [], []
 for p in props:
     pid = p["id"]
@@ -18,7 +25,7 @@ for p in props:
             "evidence_file": f"/verif/evidence/{pid}.json",
             "replay_cmd_template": "./bin/wvcheck explain {path}",
             "engine": "wvcheck",
-            "level_claimed": {"category": "other", "text": c["text"], "design_ref": f"DESIGN.md section 3, {pid}"},
+            "level_claimed": {"category": "other", "text": c["text"] + (" || What the rules decide, as registered in the checker at this commit: " + desc[pid]["explanation"] if pid in desc else ""), "design_ref": f"DESIGN.md section 3, {pid}"},
             "level_note": c["note"],
             "technique": c["technique"],
         })
